@@ -2,7 +2,8 @@
   C17 — DNS records and names decode as a reference decoder; merges are monotone.
   Property theorems only; helper lemmas live in `Lemmas/DnsSpec.lean`, `Lemmas/DnsRR.lean`,
   `Lemmas/Naming.lean`, `Lemmas/DnsRRComplete.lean` (reference fold `refEntry`, first-wins lists),
-  `Lemmas/Nbns.lean` (`firstNodeName`, the answer scan `NbnsScan`).
+  `Lemmas/Nbns.lean` (`firstNodeName`, the answer scan `NbnsScan`), `Lemmas/MdnsSpec.lean`
+  (ProcessMDNS = reference decoder record by record: `refMdns`, `MRecOK`).
 
   Reference: `Spec.NameAt` (RFC 1035 §3.1/§4.1.4 as finite derivations: labels of 1..63 octets,
   root octet, pointers only to positions strictly before the name that contains them) and
@@ -19,8 +20,9 @@ import PacketVerif.Lemmas.Naming
 import PacketVerif.Lemmas.DnsMsgSpec
 import PacketVerif.Lemmas.DnsMsg
 import PacketVerif.Lemmas.Nbns
+import PacketVerif.Lemmas.MdnsSpec
 namespace PV.Props.C17
-open PV PV.Model PV.Spec PV.Lemmas.Dns PV.Lemmas.Naming PV.Lemmas.Nbns
+open PV PV.Model PV.Spec PV.Lemmas.Dns PV.Lemmas.Naming PV.Lemmas.Nbns PV.Lemmas.Mdns
 
 /-! ### names -/
 
@@ -656,6 +658,68 @@ theorem processDNS_complete_addr (ip6 : Bytes → PtrIP) (m : Bytes) (q : Spec.Q
       exact h4 y hy _ hcy heq
     · cases h2
 
+/-- **which record each stored entry comes from** (per-record form of `processDNS_complete`; the
+    converse of `processDNS_complete_addr`).  Under the hypotheses of `processDNS_complete` the
+    entry `e` ProcessDNS returns and stores is such that every stored A entry is the candidate
+    `{owner name, RDATA, TTL}` of ONE reference record `r` — name, address and TTL all taken from
+    that same record, never the address of one record under the owner name of another — and `r`
+    is the first record (in wire order) whose candidate has that key: no record before it yields
+    a candidate with the same address.  Likewise AAAA (key: address), CNAME (`candCNAME`: owner
+    name, reference target decoded at that record's RDATA offset; key: owner name — a CNAME chain
+    is stored link by link, each link from its own record) and IPv4 PTR (`candPTR`; key: target
+    name).  For A / AAAA spelled out: `r.rtype = 1` (28), `x = {r.name, r.rdata, r.ttl}` and no
+    earlier A (AAAA) record has the RDATA of `r`. -/
+theorem processDNS_per_record (ip6 : Bytes → PtrIP) (m : Bytes) (q : Spec.Question) (qe : Nat) (rrs : List Spec.RR) (o an : Nat)
+    (hq : questionAt? m 12 = some (q, qe)) (hqd : u16At m 4 = some 1) (hqdep : depthAt m 12 ≤ 254)
+    (han : u16At m 6 = some an) (hrr : rrsAt? m an qe = some (rrs, o))
+    (hok : ∀ k pre off r o', k < an → rrsAt? m k qe = some (pre, off) → rrAt? m off = some (r, o') →
+      RecOK ip6 m off r) :
+    ∃ e : DNSEntry,
+      (processDNS ip6 [] m).2 = .ok (if e = DNSEntry.empty q.name then none else some e) ∧
+      (∀ x ∈ e.ip4, ∃ pre r post, rrs = pre ++ r :: post ∧ candA r = some x ∧
+        (∀ y ∈ pre, ∀ c, candA y = some c → c.ip ≠ x.ip) ∧
+        r.rtype = 1 ∧ x = { name := r.name, ip := r.rdata, ttl := r.ttl } ∧ (∀ y ∈ pre, y.rtype = 1 → y.rdata ≠ r.rdata)) ∧
+      (∀ x ∈ e.ip6, ∃ pre r post, rrs = pre ++ r :: post ∧ candAAAA r = some x ∧
+        (∀ y ∈ pre, ∀ c, candAAAA y = some c → c.ip ≠ x.ip) ∧
+        r.rtype = 28 ∧ x = { name := r.name, ip := r.rdata, ttl := r.ttl } ∧ (∀ y ∈ pre, y.rtype = 28 → y.rdata ≠ r.rdata)) ∧
+      (∀ x ∈ e.cname, ∃ pre r post, rrs = pre ++ r :: post ∧ candCNAME m r = some x ∧
+        (∀ y ∈ pre, ∀ c, candCNAME m y = some c → c.name ≠ x.name)) ∧
+      (∀ x ∈ e.ptr, ∃ pre r post, rrs = pre ++ r :: post ∧ candPTR ip6 m r = some x ∧
+        (∀ y ∈ pre, ∀ c, candPTR ip6 m y = some c → c.name ≠ x.name)) := by
+  refine ⟨refEntry ip6 m q.name rrs, ?_, ?_, ?_, ?_, ?_⟩
+  · rw [processDNS_complete ip6 m q qe rrs o an hq hqd hqdep han hrr hok]
+    split <;> rfl
+  · intro x hx
+    obtain ⟨pre, r, post, h1, h2, h3⟩ := isFirst_filterMap IPRec.ip candA x rrs ((mem_firstWins _ _ x).mp hx)
+    have hc := h2
+    simp only [candA] at hc
+    split at hc
+    next hr =>
+      injection hc with hc
+      refine ⟨pre, r, post, h1, h2, h3, hr.1, hc.symm, ?_⟩
+      intro y hy hty heq
+      have hcy : candA y = some { name := y.name, ip := y.rdata, ttl := y.ttl } := by
+        simp [candA, hty, heq, hr.2]
+      exact h3 y hy _ hcy (by rw [← hc]; exact heq)
+    · cases hc
+  · intro x hx
+    obtain ⟨pre, r, post, h1, h2, h3⟩ := isFirst_filterMap IPRec.ip candAAAA x rrs ((mem_firstWins _ _ x).mp hx)
+    have hc := h2
+    simp only [candAAAA] at hc
+    split at hc
+    next hr =>
+      injection hc with hc
+      refine ⟨pre, r, post, h1, h2, h3, hr.1, hc.symm, ?_⟩
+      intro y hy hty heq
+      have hcy : candAAAA y = some { name := y.name, ip := y.rdata, ttl := y.ttl } := by
+        simp [candAAAA, hty, heq, hr.2]
+      exact h3 y hy _ hcy (by rw [← hc]; exact heq)
+    · cases hc
+  · intro x hx
+    exact isFirst_filterMap NameRec.name (candCNAME m) x rrs ((mem_firstWins _ _ x).mp hx)
+  · intro x hx
+    exact isFirst_filterMap IPRec.name (candPTR ip6 m) x rrs ((mem_firstWins _ _ x).mp hx)
+
 /-- **names seen by ProcessMDNS / ProcessNBNS** (`hdr.Name`, question names) come from
     `dnsmessage.Name.unpack`; on a reference name with at most 10 pointers (dnsmessage's limit), no
     dot inside a label and a text form of at most 254 bytes it returns the reference labels each
@@ -681,6 +745,133 @@ theorem mdns_names_eq_spec (payload : Bytes) (fuel : Nat) (o : DnsMsg.MdnsOut)
     ∀ x ∈ o.ipv4 ++ o.ipv6, x.ip ≠ [] →
       ∃ off nm e, DnsMsg.unpackName payload off = .ok (nm, e) ∧ x.name = trimSuffix nm DnsMsg.sLocal :=
   PV.Lemmas.DnsMsg.processMDNS_names payload fuel o h
+
+/-! ### ProcessMDNS against the reference decoder, record by record
+
+`Lemmas/MdnsSpec.lean`.  Reference vocabulary: `rrsAt? m n off` = the `n` consecutive reference
+records from `off` (`Spec.DnsWire`); `mdnsName r` = dnsmessage's text form of the reference owner
+name of `r` (`dmText`: the labels joined by dots plus a trailing dot, "." for the root) with the
+suffix ".local." removed — what `strings.TrimSuffix(hdr.Name.String(), ".local.")` computes;
+`MRecOK m off r` = what ProcessMDNS needs to get past the reference record `r` at `off`:
+an owner name dnsmessage accepts (`OwnerOK`: at most 10 compression pointers, no dot inside a
+label, at most 254 octets of text) and, for an A / AAAA record, 4 / 16 octets of RDATA. -/
+
+/-- the per-record hypothesis of the mDNS theorems, over the flat reference record list: the
+    record the reference finds after any `k < n` records satisfies `MRecOK` -/
+def MdnsRecsOK (m : Bytes) (n qe : Nat) : Prop :=
+  ∀ k pre off r o', k < n → rrsAt? m k qe = some (pre, off) → rrAt? m off = some (r, o') → MRecOK m off r
+
+/-- **ProcessMDNS = reference decoder, record by record (exact, complete, in wire order).**
+    For an mDNS response (QR = 1) whose `qd` questions and whose `an + ns + ar` records — answer,
+    authority and additional sections, ProcessMDNS walks all three — the reference decodes, every
+    record being `MRecOK`, the call returns, without error, exactly:
+    * IPv4 list: one entry per type-A record, in wire order, the i-th entry carrying the name
+      decoded at the owner-name offset of the i-th A record (`mdnsName`) and the RDATA of that same
+      record — never the address of one record with the name of another;
+    * IPv6 list: likewise for the type-AAAA records;
+    * no entry for any other record: PTR, SRV, TXT, OPT records are parsed and dropped (skipped
+      by RDLENGTH when dnsmessage cannot read their body), every other type is skipped by RDLENGTH;
+    * the model string of every entry: from the last TXT record whose strings name a model
+      (`refModel`), "" if none.
+    `Mdns.refMdns` is that result; `mdns_pairs_eq_spec` spells the two lists out. -/
+theorem mdns_eq_spec (payload : Bytes) (fuel : Nat) (id bits qd an ns ar : Nat)
+    (qs : List Spec.Question) (qe : Nat) (rrs : List RR) (o : Nat)
+    (h0 : u16At payload 0 = some id) (h2 : u16At payload 2 = some bits) (h4 : u16At payload 4 = some qd)
+    (h6 : u16At payload 6 = some an) (h8 : u16At payload 8 = some ns) (h10 : u16At payload 10 = some ar)
+    (hresp : bits / 32768 % 2 = 1)
+    (hqs : questionsAt? payload qd 12 = some (qs, qe))
+    (hrr : rrsAt? payload (an + ns + ar) qe = some (rrs, o))
+    (hok : MdnsRecsOK payload (an + ns + ar) qe)
+    (hf : qd + an + ns + ar + 5 ≤ fuel) :
+    DnsMsg.processMDNS fuel payload = .ok (refMdns payload rrs) :=
+  processMDNS_eq_ref payload fuel id bits qd an ns ar qs qe rrs o h0 h2 h4 h6 h8 h10 hresp hqs
+    (recsOK_of_rrsAt _ _ _ _ hrr hok) hf
+
+/-- **the (name, address) pairs, spelled out**: under the hypotheses of `mdns_eq_spec` the result
+    `out` has no error flag and its lists are, pair for pair and in wire order, the reference
+    (owner name, RDATA) pairs of the A records and of the AAAA records of the three sections.
+    Soundness (every returned pair is the pair of ONE record) and completeness (every A / AAAA
+    record contributes its pair) are the two inclusions of these equalities. -/
+theorem mdns_pairs_eq_spec (payload : Bytes) (fuel : Nat) (id bits qd an ns ar : Nat)
+    (qs : List Spec.Question) (qe : Nat) (rrs : List RR) (o : Nat)
+    (h0 : u16At payload 0 = some id) (h2 : u16At payload 2 = some bits) (h4 : u16At payload 4 = some qd)
+    (h6 : u16At payload 6 = some an) (h8 : u16At payload 8 = some ns) (h10 : u16At payload 10 = some ar)
+    (hresp : bits / 32768 % 2 = 1)
+    (hqs : questionsAt? payload qd 12 = some (qs, qe))
+    (hrr : rrsAt? payload (an + ns + ar) qe = some (rrs, o))
+    (hok : MdnsRecsOK payload (an + ns + ar) qe)
+    (hf : qd + an + ns + ar + 5 ≤ fuel) :
+    ∃ out, DnsMsg.processMDNS fuel payload = .ok out ∧ out.err = false ∧
+      out.ipv4.map (fun x => (x.name, x.ip)) = (rrs.filter (fun r => r.rtype = 1)).map (fun r => (mdnsName r, r.rdata)) ∧
+      out.ipv6.map (fun x => (x.name, x.ip)) = (rrs.filter (fun r => r.rtype = 28)).map (fun r => (mdnsName r, r.rdata)) := by
+  refine ⟨_, mdns_eq_spec payload fuel id bits qd an ns ar qs qe rrs o h0 h2 h4 h6 h8 h10 hresp hqs hrr hok hf, ?_⟩
+  obtain ⟨a, b, c⟩ := finalize_pairs (refModel payload [] rrs) (refV4 [] rrs) (refV6 [] rrs)
+  refine ⟨c, ?_, ?_⟩
+  · show (DnsMsg.finalize _ _ _).ipv4.map _ = _
+    rw [a, refV4_eq]
+    simp [List.map_map, Function.comp_def, entryOf]
+  · show (DnsMsg.finalize _ _ _).ipv6.map _ = _
+    rw [b, refV6_eq]
+    simp [List.map_map, Function.comp_def, entryOf]
+
+/-- **messages that stop being decodable in the middle**: if only the first `k ≤ an + ns + ar`
+    records are reference records that are `MRecOK` — whatever follows: truncation, a name
+    dnsmessage refuses, garbage — every returning call (error flag set or not) reports the pairs
+    of these `k` records first, in wire order, each from its own record; what it appends after
+    them comes from bytes the reference decoder does not accept as records. -/
+theorem mdns_pairs_prefix (payload : Bytes) (fuel : Nat) (id bits qd an ns ar : Nat)
+    (qs : List Spec.Question) (qe : Nat) (k : Nat) (rrs : List RR) (o : Nat) (out : DnsMsg.MdnsOut)
+    (h0 : u16At payload 0 = some id) (h2 : u16At payload 2 = some bits) (h4 : u16At payload 4 = some qd)
+    (h6 : u16At payload 6 = some an) (h8 : u16At payload 8 = some ns) (h10 : u16At payload 10 = some ar)
+    (hresp : bits / 32768 % 2 = 1)
+    (hqs : questionsAt? payload qd 12 = some (qs, qe))
+    (hk : k ≤ an + ns + ar) (hrr : rrsAt? payload k qe = some (rrs, o)) (hok : MdnsRecsOK payload k qe)
+    (hf : qd < fuel) (hout : DnsMsg.processMDNS fuel payload = .ok out) :
+    (∃ t, out.ipv4.map (fun x => (x.name, x.ip)) = (rrs.filter (fun r => r.rtype = 1)).map (fun r => (mdnsName r, r.rdata)) ++ t) ∧
+    (∃ t, out.ipv6.map (fun x => (x.name, x.ip)) = (rrs.filter (fun r => r.rtype = 28)).map (fun r => (mdnsName r, r.rdata)) ++ t) := by
+  obtain ⟨⟨t4, a⟩, ⟨t6, b⟩⟩ := processMDNS_prefix payload fuel id bits qd an ns ar qs qe k rrs o out h0 h2 h4 h6 h8 h10 hresp hqs hk
+    (recsOK_of_rrsAt _ _ _ _ hrr hok) hf hout
+  refine ⟨⟨t4, ?_⟩, ⟨t6, ?_⟩⟩
+  · have : pairs out.ipv4 = out.ipv4.map (fun x => (x.name, x.ip)) := rfl
+    rw [← this, a, refV4_eq]
+    simp [pairs, List.map_map, Function.comp_def, entryOf]
+  · have : pairs out.ipv6 = out.ipv6.map (fun x => (x.name, x.ip)) := rfl
+    rw [← this, b, refV6_eq]
+    simp [pairs, List.map_map, Function.comp_def, entryOf]
+
+/-- **why `MRecOK` asks for 4 octets in an A record**: on a reference A record of ANY RDLENGTH
+    (owner name accepted), one loop iteration either fails — the message ends less than four
+    octets after the RDATA offset — or appends the record's own name with the four octets AT the
+    RDATA offset (`AResource` does not look at RDLENGTH; they are the RDATA exactly when RDLENGTH
+    = 4) and continues RDLENGTH octets further.  `mdns_AAAA_any_rdlength`: same with 16. -/
+theorem mdns_A_any_rdlength (s : DnsMsg.MdnsState) (r : RR) (o : Nat)
+    (hr : s.p.resHeaderValid = false) (hs : s.p.sect = s.sec) (hi : s.p.index ≠ s.p.count s.sec)
+    (hrr : rrAt? s.p.msg s.p.off = some (r, o)) (hown : OwnerOK s.p.msg s.p.off) (t1 : r.rtype = 1) :
+    DnsMsg.mdnsStep s =
+      (if r.rdataOff + 4 ≤ s.p.msg.length then
+        .next { s with p := recAdv s.p r,
+                       v4 := s.v4 ++ [{ name := mdnsName r, ip := (s.p.msg.drop r.rdataOff).take 4, model := [], manufacturer := [] }] }
+       else .done { ipv4 := s.v4, ipv6 := s.v6, err := true }) :=
+  mdnsStep_A_any s r o hr hs hi hrr hown t1
+
+theorem mdns_AAAA_any_rdlength (s : DnsMsg.MdnsState) (r : RR) (o : Nat)
+    (hr : s.p.resHeaderValid = false) (hs : s.p.sect = s.sec) (hi : s.p.index ≠ s.p.count s.sec)
+    (hrr : rrAt? s.p.msg s.p.off = some (r, o)) (hown : OwnerOK s.p.msg s.p.off) (t28 : r.rtype = 28) :
+    DnsMsg.mdnsStep s =
+      (if r.rdataOff + 16 ≤ s.p.msg.length then
+        .next { s with p := recAdv s.p r,
+                       v6 := s.v6 ++ [{ name := mdnsName r, ip := (s.p.msg.drop r.rdataOff).take 16, model := [], manufacturer := [] }] }
+       else .done { ipv4 := s.v4, ipv6 := s.v6, err := true }) :=
+  mdnsStep_AAAA_any s r o hr hs hi hrr hown t28
+
+/-- **a record header dnsmessage cannot read** (owner name with more than 10 pointers, a dot inside
+    a label, reserved label bits, truncated fixed part) ends the call: error flag, the entries
+    found so far (`mdns_pairs_prefix` says which). -/
+theorem mdns_header_error (s : DnsMsg.MdnsState) (e : DnsMsg.PErr)
+    (hr : s.p.resHeaderValid = false) (hs : s.p.sect = s.sec) (hi : s.p.index ≠ s.p.count s.sec)
+    (hu : DnsMsg.unpackRHeader s.p.msg s.p.off = .error e) (he : e ≠ .sectionDone) :
+    DnsMsg.mdnsStep s = .done { ipv4 := s.v4, ipv6 := s.v6, err := true } :=
+  mdnsStep_header_error s e hr hs hi hu he
 
 /-- **NBNS node status names**: `parseNodeNameArray` returns exactly the unique names of the RFC 1002
     NODE_NAME array (each entry's own name, padding stripped), on every input; ProcessNBNS reports
@@ -905,6 +1096,72 @@ example : ∃ (q : Spec.Question) (qe : Nat) (rrs : List Spec.RR) (o an : Nat),
 example : decodeQuestion sampleResp 12 = .ok ({ name := [97], qtype := 1, qclass := 1 }, 19) := by decide
 example : (processDNS (fun _ => .invalid) [] sampleResp).2 =
     .ok (some { name := [97], ip4 := [{ name := [97], ip := [10,0,0,1], ttl := 60 }], ip6 := [], cname := [], ptr := [] }) := by decide
+
+/-! #### an mDNS response: two A records with different owner names and an AAAA record -/
+
+/-- header (response, AN = 2, AR = 1); `a.local. A 10.0.0.1`; `b.<ptr local>. A 10.0.0.2`;
+    additional: `<ptr b.local>. AAAA fe80::1` -/
+def sampleMdns : Bytes :=
+  [0,0,0x84,0,0,0,0,2,0,0,0,1,
+   1,97, 5,108,111,99,97,108, 0,  0,1, 0,1, 0,0,0,60, 0,4, 10,0,0,1,
+   1,98, 0xc0,14,  0,1, 0,1, 0,0,0,60, 0,4, 10,0,0,2,
+   0xc0,35,  0,28, 0,1, 0,0,0,60, 0,16, 0xfe,0x80,0,0,0,0,0,0,0,0,0,0,0,0,0,1]
+
+theorem sampleMdns_n0 : NameAt sampleMdns 14 14 [[108,111,99,97,108]] 21 0 :=
+  NameAt.label (n := 5) (by decide) (by decide) (by decide) (by decide) (NameAt.root (by decide))
+theorem sampleMdns_n1 : NameAt sampleMdns 12 12 [[97],[108,111,99,97,108]] 21 0 :=
+  NameAt.label (n := 1) (by decide) (by decide) (by decide) (by decide)
+    (NameAt.label (n := 5) (by decide) (by decide) (by decide) (by decide) (NameAt.root (by decide)))
+theorem sampleMdns_n2 : NameAt sampleMdns 35 35 [[98],[108,111,99,97,108]] 39 1 :=
+  NameAt.label (n := 1) (by decide) (by decide) (by decide) (by decide)
+    (NameAt.ptr (hi := 0xc0) (lo := 14) (e := 21) (by decide) (by decide) (by decide) (by decide) sampleMdns_n0)
+theorem sampleMdns_n3 : NameAt sampleMdns 53 53 [[98],[108,111,99,97,108]] 55 2 :=
+  NameAt.ptr (hi := 0xc0) (lo := 35) (e := 39) (by decide) (by decide) (by decide) (by decide) sampleMdns_n2
+
+def sampleMdnsR1 : RR := { name := [97,46,108,111,99,97,108], rtype := 1, rclass := 1, ttl := 60, rdata := [10,0,0,1], rdataOff := 31 }
+def sampleMdnsR2 : RR := { name := [98,46,108,111,99,97,108], rtype := 1, rclass := 1, ttl := 60, rdata := [10,0,0,2], rdataOff := 49 }
+def sampleMdnsR3 : RR := { name := [98,46,108,111,99,97,108], rtype := 28, rclass := 1, ttl := 60,
+                           rdata := [0xfe,0x80,0,0,0,0,0,0,0,0,0,0,0,0,0,1], rdataOff := 65 }
+
+theorem sampleMdns_rr1 : rrAt? sampleMdns 12 = some (sampleMdnsR1, 35) := by
+  have : decodeName? sampleMdns 12 = some ([97,46,108,111,99,97,108], 21, 0) := by
+    simp [decodeName?, nameAt?_complete sampleMdns_n1, wireLen, text]
+  unfold rrAt?; rw [this]; decide
+theorem sampleMdns_rr2 : rrAt? sampleMdns 35 = some (sampleMdnsR2, 53) := by
+  have : decodeName? sampleMdns 35 = some ([98,46,108,111,99,97,108], 39, 1) := by
+    simp [decodeName?, nameAt?_complete sampleMdns_n2, wireLen, text]
+  unfold rrAt?; rw [this]; decide
+theorem sampleMdns_rr3 : rrAt? sampleMdns 53 = some (sampleMdnsR3, 81) := by
+  have : decodeName? sampleMdns 53 = some ([98,46,108,111,99,97,108], 55, 2) := by
+    simp [decodeName?, nameAt?_complete sampleMdns_n3, wireLen, text]
+  unfold rrAt?; rw [this]; decide
+
+/-- the hypotheses of `mdns_eq_spec` / `mdns_pairs_eq_spec` are satisfiable, and the result pairs
+    every address with the owner name of its own record: 10.0.0.1 ↦ "a", 10.0.0.2 ↦ "b",
+    fe80::1 ↦ "b" (owner names compressed / pointer-chained) -/
+example :
+    MdnsRecsOK sampleMdns 3 12 ∧ rrsAt? sampleMdns 3 12 = some ([sampleMdnsR1, sampleMdnsR2, sampleMdnsR3], 81) ∧
+    DnsMsg.processMDNS 8 sampleMdns = .ok
+      { ipv4 := [{ name := [97], ip := [10,0,0,1], model := [], manufacturer := [] },
+                 { name := [98], ip := [10,0,0,2], model := [], manufacturer := [] }],
+        ipv6 := [{ name := [98], ip := [0xfe,0x80,0,0,0,0,0,0,0,0,0,0,0,0,0,1], model := [], manufacturer := [] }],
+        err := false } := by
+  have dots : ∀ l ∈ [[98],[108,111,99,97,108]], ∀ c ∈ l, c ≠ (46 : UInt8) := by decide
+  have dots1 : ∀ l ∈ [[97],[108,111,99,97,108]], ∀ c ∈ l, c ≠ (46 : UInt8) := by decide
+  have ok1 : MRecOK sampleMdns 12 sampleMdnsR1 :=
+    ⟨⟨_, _, _, sampleMdns_n1, by omega, dots1, by decide⟩, fun _ => rfl, fun h => absurd h (by decide)⟩
+  have ok2 : MRecOK sampleMdns 35 sampleMdnsR2 :=
+    ⟨⟨_, _, _, sampleMdns_n2, by omega, dots, by decide⟩, fun _ => rfl, fun h => absurd h (by decide)⟩
+  have ok3 : MRecOK sampleMdns 53 sampleMdnsR3 :=
+    ⟨⟨_, _, _, sampleMdns_n3, by omega, dots, by decide⟩, fun h => absurd h (by decide), fun _ => rfl⟩
+  have hrecs : RecsOK sampleMdns 3 12 [sampleMdnsR1, sampleMdnsR2, sampleMdnsR3] 81 :=
+    ⟨_, _, _, sampleMdns_rr1, ok1, ⟨_, _, _, sampleMdns_rr2, ok2, ⟨_, _, _, sampleMdns_rr3, ok3, ⟨rfl, rfl⟩, rfl⟩, rfl⟩, rfl⟩
+  have hrr := rrsAt_of_recsOK _ _ _ _ hrecs
+  have hok : MdnsRecsOK sampleMdns 3 12 := mrecOK_of_recsOK _ _ _ _ hrecs
+  refine ⟨hok, hrr, ?_⟩
+  rw [mdns_eq_spec sampleMdns 8 0 0x8400 0 2 0 1 [] 12 _ 81 (by decide) (by decide) (by decide) (by decide)
+    (by decide) (by decide) (by decide) rfl hrr hok (by omega)]
+  decide
 
 /-- a self-pointing name has no derivation and is rejected -/
 example : decodeName [0,0,0,0,0,0,0,0,0,0,0,0, 0xc0, 12] 12 1 = .err .parseFrame := by decide
